@@ -223,6 +223,13 @@ func (fr *Frame) cutLoop(li *loopInfo) *State {
 		}
 		c.assume(st.reach, c.evalBool(env, cl.Expr))
 	}
+	for _, cl := range fr.loopClauses(li, "loopheadinst") {
+		env := fr.envAt(h, st, nil)
+		if li.parent != nil && li.parent.headState != nil {
+			env.pre = li.parent.headState
+		}
+		c.assume(st.reach, c.lemmaInstance(env, cl.Src, cl.File, cl.Line))
+	}
 	li.headState = st.clone()
 	return st
 }
